@@ -156,7 +156,7 @@ Definition bar_clause (st : result (N * list attr)) (i : qie) : result (N * list
   | Ok (id, attrs) =>
     match i with
     | QBarId v => Ok (v, attrs)
-    | QDelay ns => Ok (id, attrs ++ [A nl_BAR_DOWNLINK_DATA_NOTIFICATION_DELAY (V8 ns)])   (* AttrU8(time.Duration): TODO in the code *)
+    | QDelay ns => Ok (id, attrs ++ [A nl_BAR_DOWNLINK_DATA_NOTIFICATION_DELAY (V8 (ns / 50000000))])   (* AttrU8(v / (50 * time.Millisecond)) *)
     | QCount v => Ok (id, attrs ++ [A nl_BAR_BUFFERING_PACKETS_COUNT (V16 v)])
     | QBad t => if (t =? T3_BARID) || (t =? T3_DLDNDelay) || (t =? T3_SuggestedBufferingPacketsCount) then Err else st
     | _ => st
